@@ -372,6 +372,13 @@ func streamIntraProxyRouting(
 	logger.Info("streamIntraProxyRouting started")
 	defer logger.Info("streamIntraProxyRouting finished")
 
+	// Intra-proxy streams need the intra-proxy manager, which only exists when memberlist is
+	// configured. Without it a stream that merely carries the intra-proxy header would make
+	// the sender goroutine below dereference a nil manager and crash the process.
+	if shardManager.GetIntraProxyManager() == nil {
+		return serviceerror.NewFailedPrecondition("intra-proxy streams are not enabled on this proxy")
+	}
+
 	// Determine remote peer identity from intra-proxy headers
 	peerNodeName := ""
 	if md, ok := metadata.FromIncomingContext(streamServer.Context()); ok {
